@@ -127,7 +127,7 @@ package keeper
 //@   ensures !success ==> bank.bal == old(bank.bal) && bank.supply == old(bank.supply) && bank.meta == old(bank.meta) && NextL2Sequence == old(NextL2Sequence)   // C07: failed_hook_leaves_nothing_but_account_sequence
 //@   ensures NextL1Sequence == old(NextL1Sequence) && DenomPairs == old(DenomPairs) && Params == old(Params) && BridgeInfo == old(BridgeInfo)   // A-ROUTER: executor/authority-gated state is out of a hook's reach
 //@   ensures hookMaxGas == 0 ==> !success                                                                                        // C07: disabled_hook_fails
-//@   emits !success ==> nothing                                                                                                  // C07,C09,C04: failed_hook_announces_nothing
+//@   emits !success ==> nothing                                                                                                  // C07,C09,C04,C08: failed_hook_announces_nothing
 //@   ensures $gasChargedOuter <= hookMaxGas                                                                                       // C07: hook_spends_at_most_the_configured_gas
 //@   assigns bank.bal, bank.supply, bank.meta, auth.acc, NextL2Sequence, events
 
